@@ -90,6 +90,7 @@ ODATA = Dialect(
     prefix={"NOT": 7, "-": 7},
     word_ops={"IN", "MUL", "DIV", "MOD", "ADD", "SUB", "GT", "GE", "LT", "LE", "EQ", "NE", "AND", "OR", "NOT"},
     keywords_atoms={"NULL", "TRUE", "FALSE"},
+    typed_literals={"DURATION", "GEOGRAPHY"},
 )
 
 _SQL_TOKEN = re.compile(r"""
@@ -362,16 +363,26 @@ class Parser:
         if self.peek() is not None and self.peek().kind == "listhole":
             h = self.next().hole
             self.used.append(h)
+            if self.d.name == "odata" and self.peek() is not None and self.peek().kind == ",":
+                self.next()
+                self.expect(")")
+                return ("list", ("listhole", h), ("trailing-comma",)), LV(), LV()
             self.expect(")")
             return ("list", ("listhole", h)), LV(), LV()
         if self.peek() is not None and self.peek().kind == ")":
             self.next()
             return ("list",), LV(), LV()
         items = [self.full_operand()]
+        trailing = False
         while self.peek() is not None and self.peek().kind == ",":
             self.next()
+            if self.d.name == "odata" and self.peek() is not None and self.peek().kind == ")":
+                trailing = True
+                break
             items.append(self.full_operand())
         self.expect(")")
+        if trailing:
+            return ("list",) + tuple(items) + (("trailing-comma",),), LV(), LV()
         if len(items) == 1:
             return ("paren", items[0]), LV(), LV()
         return ("list",) + tuple(items), LV(), LV()
